@@ -199,6 +199,15 @@ var c01Bundles = map[string]c01Bundle{
 	// auto-placed grid items whose spans overflow the explicit columns / rows (dense and sparse), items locked to a row
 	"grid-spans":       {tag: "div", decl: "display:grid;grid-template-columns:10px 10px 10px;grid-auto-flow:row dense", inner: `<div style="grid-column:span 2;grid-row:span 2">a</div><div style="grid-column:span 2;grid-row:span 2">b</div><div style="grid-row:1">c</div><div style="grid-column:3 / span 2">d</div><div style="grid-column:span 4">e</div>`, void: true},
 	"grid-spans-sparse": {tag: "div", decl: "display:grid;grid-template-columns:10px 10px 10px", inner: `<div style="grid-column:span 2;grid-row:span 2">a</div><div style="grid-column:span 2;grid-row:span 2">b</div><div style="grid-row:1">c</div><div style="grid-column:2">d</div><div style="grid-row:2 / span 3;grid-column:span 3">e</div>`, void: true},
+	// reference cycles of every kind inside an inline SVG (gradient / pattern templates, use, clip-path, mask, marker, filter)
+	"svg-cycles": {tag: "svg", attrs: `width="20" height="20" viewBox="0 0 10 10" xmlns:xlink="http://www.w3.org/1999/xlink"`, void: true, inner: `<defs><linearGradient id="ga" xlink:href="#gb"/><linearGradient id="gb" href="#ga"><stop offset="0" stop-color="red"/></linearGradient><radialGradient id="gs" href="#gs"/>` +
+		`<pattern id="pa" href="#pb" width="2" height="2"/><pattern id="pb" xlink:href="#pc"/><pattern id="pc" href="#pa"><rect width="1" height="1" fill="url(#pa)"/></pattern>` +
+		`<clipPath id="ca" clip-path="url(#cb)"><rect width="5" height="5"/></clipPath><clipPath id="cb" clip-path="url(#ca)"><rect width="4" height="4"/></clipPath>` +
+		`<mask id="ma" mask="url(#ma)"><rect width="5" height="5" fill="white" mask="url(#ma)"/></mask><marker id="mk" markerWidth="2" markerHeight="2"><path d="M0 0L1 1" marker-end="url(#mk)"/></marker>` +
+		`<g id="ua"><use href="#ub"/></g><g id="ub"><use xlink:href="#ua"/></g></defs>` +
+		`<rect width="5" height="5" fill="url(#ga)" stroke="url(#gs)"/><rect x="5" width="5" height="5" fill="url(#pa)" clip-path="url(#ca)"/><rect y="5" width="5" height="5" mask="url(#ma)"/><path d="M1 6L4 9" stroke="black" marker-end="url(#mk)" marker-start="url(#mk)"/><use href="#ua"/>`},
+	// balanced columns whose children have fractional heights (the balancing loop adds the smallest lost space to the height)
+	"columns-fractional": {tag: "div", decl: "columns:2;column-gap:0", inner: `<div style="height:3.3px"></div><div style="height:3.3px"></div><div style="height:3.3px"></div><div style="height:3.3px"></div><div style="height:3.3px"></div><div style="height:7.7px"></div><div style="height:0.1px"></div><p style="line-height:3.7px;font-size:3px">a b c d e f g h i j</p>`, void: true},
 	"full-list":      {tag: "ol", attrs: `start="3"`, decl: "list-style:upper-roman outside;margin-left:20px", inner: `<li>item 1</li><li>item 2</li><li>item 3</li><li>item 4</li><li>item 5</li><li>item 6</li><li><ul><li>n1<li>n2</ul></li>`, void: true},
 	"full-flex":      {tag: "div", decl: "display:flex;flex-wrap:wrap;gap:2px;align-items:center", inner: `<div style="flex:1 0 40px">f1 f1</div><div style="flex:2 1 30px;order:-1">f2</div><div style="width:50px;height:40px">f3</div><div style="margin:auto">f4</div><div style="flex-basis:100%">f5 f5 f5 f5</div>`, void: true},
 	"full-grid":      {tag: "div", decl: "display:grid;grid-template-columns:repeat(3,1fr);grid-auto-rows:20px;gap:1px", inner: `<div>g1</div><div style="grid-column:span 2">g2</div><div style="grid-row:span 2">g3</div><div>g4</div><div>g5</div><div>g6</div><div>g7</div>`, void: true},
